@@ -148,7 +148,7 @@ impl HasDims for Target {
 
 impl CpuLogpFunc for Target {
     type LogpError = TErr;
-    type FlowParameters = ();
+    type FlowParameters = FlowP;
     type ExpandedVector = Vec<f64>;
 
     fn dim(&self) -> usize {
@@ -193,4 +193,72 @@ impl CpuLogpFunc for Target {
     fn expand_vector<R: rand::Rng + ?Sized>(&mut self, _rng: &mut R, array: &[f64]) -> Result<Vec<f64>, CpuMathError> {
         Ok(array.to_vec())
     }
+
+    // ---- a toy affine "flow": z = (x - shift) / scale, refitted from the draws it is given
+    fn inv_transform_normalize(&mut self, p: &FlowP, x: &[f64], g: &[f64], z: &mut [f64], gz: &mut [f64]) -> Result<f64, TErr> {
+        let mut logdet = 0.0;
+        for i in 0..x.len() {
+            z[i] = (x[i] - p.shift[i]) / p.scale[i];
+            gz[i] = g[i] * p.scale[i];
+            logdet -= p.scale[i].ln();
+        }
+        Ok(logdet)
+    }
+    fn init_from_untransformed_position(&mut self, p: &FlowP, x: &[f64], g: &mut [f64], z: &mut [f64], gz: &mut [f64]) -> Result<(f64, f64), TErr> {
+        let lp = self.logp(x, g)?;
+        let g2 = g.to_vec();
+        let ld = self.inv_transform_normalize(p, x, &g2, z, gz)?;
+        Ok((lp, ld))
+    }
+    fn init_from_transformed_position(&mut self, p: &FlowP, x: &mut [f64], g: &mut [f64], z: &[f64], gz: &mut [f64]) -> Result<(f64, f64), TErr> {
+        let mut logdet = 0.0;
+        for i in 0..x.len() {
+            x[i] = z[i] * p.scale[i] + p.shift[i];
+            logdet -= p.scale[i].ln();
+        }
+        let lp = self.logp(x, g)?;
+        for i in 0..x.len() {
+            gz[i] = g[i] * p.scale[i];
+        }
+        Ok((lp, logdet))
+    }
+    fn update_transformation<'a, R: rand::Rng + ?Sized>(
+        &'a mut self,
+        _rng: &mut R,
+        xs: impl ExactSizeIterator<Item = &'a [f64]>,
+        _gs: impl ExactSizeIterator<Item = &'a [f64]>,
+        _lp: impl ExactSizeIterator<Item = &'a f64>,
+        p: &'a mut FlowP,
+    ) -> Result<(), TErr> {
+        let xs: Vec<&[f64]> = xs.collect();
+        if xs.len() >= 3 {
+            let n = xs.len() as f64;
+            for i in 0..self.dim {
+                let m = xs.iter().map(|x| x[i]).sum::<f64>() / n;
+                let v = xs.iter().map(|x| (x[i] - m) * (x[i] - m)).sum::<f64>() / n;
+                if v.is_finite() && v > 0.0 {
+                    p.shift[i] = m;
+                    p.scale[i] = v.sqrt();
+                }
+            }
+        }
+        p.id += 1;
+        Ok(())
+    }
+    fn init_transformation<R: rand::Rng + ?Sized>(&mut self, _rng: &mut R, _x: &[f64], _g: &[f64], _chain: u64) -> Result<FlowP, TErr> {
+        Ok(FlowP { id: 0, shift: vec![0.0; self.dim], scale: vec![1.0; self.dim] })
+    }
+    fn new_transformation<R: rand::Rng + ?Sized>(&mut self, _rng: &mut R, dim: usize, _chain: u64) -> Result<FlowP, TErr> {
+        Ok(FlowP { id: 0, shift: vec![0.0; dim], scale: vec![1.0; dim] })
+    }
+    fn transformation_id(&self, p: &FlowP) -> Result<i64, TErr> {
+        Ok(p.id)
+    }
+}
+
+#[derive(Clone, Debug)]
+pub struct FlowP {
+    pub id: i64,
+    pub shift: Vec<f64>,
+    pub scale: Vec<f64>,
 }
